@@ -138,6 +138,21 @@ def l_nested(x):
     while True:
         t_small(-1)
         t_classify(-1, 2, 3)
+
+
+def l_lines_only(period):
+    # every iteration executes the same few lines and nothing else the tracer hears of (no predicate, no new line, no call into
+    # instrumented code); only after ~3.5 s the handler - new lines and an exception-match predicate - is reached
+    todo = [0] * int(3.5 / period)
+    n = 0
+    while True:
+        try:
+            todo.pop()
+            time.sleep(period)
+        except IndexError:
+            todo = [0] * int(3.5 / period)
+            n += 1
+    return n
 '''
 MOD = "c32_sut"
 A = MOD + "_"
@@ -170,10 +185,12 @@ def _loop_lines(kind, rng):
         return [f"var_0 = {A}.l_finally(1)"], "finally-raise"
     if kind == "nested":
         return [f"var_0 = {A}.t_small(1)", f"var_1 = {A}.l_nested(1)"], "nested"
+    if kind == "lines-only":
+        return [f"var_0 = {A}.l_lines_only(0.1)"], "sleep(0.1)"
     raise AssertionError(kind)
 
 
-LOOP_KINDS = ["busy", "sleep-short", "c-call", "sleep-long", "swallow", "finally-raise", "nested"]
+LOOP_KINDS = ["busy", "sleep-short", "c-call", "sleep-long", "swallow", "finally-raise", "nested", "lines-only"]
 DELAYS = [0.0, 0.0, 0.02, 0.2, 0.6, 1.5]
 # (maximum_test_execution_timeout, test_execution_time_per_statement); tests are padded to PAD statements where per < max, so that
 # the budget of every test is "already at the maximum": min(max, per * size) == max
@@ -190,7 +207,7 @@ def floors(tier):
         "distinct": 30 * k,
         "classes": {
             "loop:busy": 15 * k, "loop:sleep-short": 15 * k, "loop:c-call": 15 * k, "loop:sleep-long": 4, "loop:swallow": 2,
-            "loop:finally-raise": 4, "loop:nested": 4, "delay-injected": 30 * k, "later:compared": 130 * k,
+            "loop:finally-raise": 4, "loop:nested": 4, "loop:lines-only": 2, "delay-injected": 30 * k, "later:compared": 130 * k,
             "later:after-delayed-abort": 40 * k, f"timing:{SHORT}": 60 * k, f"timing:{LONG}": 12 * k,
             "loop:asleep-at-timeout": 12 * k, "loop:budget-at-maximum-with->=5-statements": 12 * k, "config:max!=per-statement": 40 * k,
         },
@@ -460,6 +477,10 @@ DIRECTED = [
     ([("sleep-short", 0.6), "t_slow", ("sleep-short", 0.25), "t_slow", "t_classify", ("sleep-short", 0.45), "t_long", "busy", "t_slow",
       ("sleep-short", 0.35), "t_slow"], 0.0, 2),
     ([("sleep-short", 0.45), "t_slow", "c-call", "t_slow", ("sleep-short", 0.6), "t_slow", "nested", "t_long", ("sleep-short", 0.3), "t_slow"], 0.2, 1),
+    # a loop over already covered lines only: the abandoned thread must die at its next line event (within one sleep period), not
+    # when it reaches something new seconds later, while later tests are running
+    (["lines-only", "t_long", "t_long", "t_long", "t_long", "t_long", "t_long", "t_small", "t_classify"], 0.0, 0),
+    (["t_small", "lines-only", "t_slow", "t_long", "t_long", "t_long", "t_long", "t_long", "t_raise"], 0.0, 0),
 ]
 
 
@@ -503,7 +524,7 @@ def run_chunk(spec, ctx):
             kinds = []
             for _i in range(n):
                 if rng.random() < 0.33:
-                    k = rng.choices(LOOP_KINDS, weights=[5, 5, 5, 1, 0.5, 2, 2])[0]
+                    k = rng.choices(LOOP_KINDS, weights=[5, 5, 5, 1, 0.5, 2, 2, 0])[0]
                     if k == "sleep-short" and cfg[0] >= 2 and rng.random() < 0.6:
                         k = ("sleep-short", rng.choice([0.25, 0.3, 0.4, 0.5, 0.6]))
                     kinds.append(k)
